@@ -479,6 +479,10 @@ func (c *Cursor) Filter(ctx context.Context, idxStr string, val []interface{}) e
 	if err != nil {
 		return fmt.Errorf("cursor: %w", err)
 	}
+	if c.t.Tree.Root.Size() == 0 {
+		c.eof = true
+		return nil
+	}
 	if !c.desc {
 		if c.min != nil {
 			err = c.cursor.Ceil(ctx, c.min)
